@@ -86,6 +86,22 @@ class FormWorld:
             # a weighted sum of form-like objects that are not Forms (FormSum of cofunctions)
             ("fs", 1, 2 * ufl.Cofunction(S.dual()) + 3 * ufl.Cofunction(S.dual())),
         ]
+        # two forms that differ ONLY in an argument slot of a nested external operator dN/du(u; ., v*): comparing them
+        # must say "different" and must leave both as they are
+        N = ufl.ExternalOperator(w, function_space=S)
+        (vstar,) = N.argument_slots()
+
+        def dN(direction):
+            return ufl.ExternalOperator(w, function_space=S, derivatives=(1,), argument_slots=(vstar, direction))
+
+        self.init += [
+            ("ext-arg", 2, (ufl.sin(dN(u)) + w) * v * dx),
+            ("ext-coef", 1, (ufl.sin(dN(g)) + w) * v * dx),
+        ]
+        # list-valued metadata entries (canonicalised recursively by the signature)
+        self.md[1]["points"] = [[0.25, 0.5], [0.5, 0.25]]
+        self.md[1]["weights"] = [0.25, 0.25]
+        self.md0 = copy.deepcopy(self.md)
 
     def snapshot(self, x):
         ufl = self.ufl
